@@ -237,8 +237,10 @@ class Decompiler(object):
                     arg = [cmp_op[oparg]]
                 elif op in hasfree:
                     if PY311:
-                        oparg -= len(code.co_varnames)
-                    arg = [free[oparg]]
+                        # the index counts all fast locals: arguments that are cells occur only once
+                        arg = [code._varname_from_oparg(oparg)]
+                    else:
+                        arg = [free[oparg]]
                 elif op in hasjabs:
                     arg = [oparg * (2 if PY310 else 1)]
                 else:
